@@ -197,8 +197,13 @@ class CodecAnalyser:
                 return
         if not ended:
             pr.layout.append(f"end@{off}")
-            if not st.len_equals(off):
-                lo, hi = st.len_bounds()
+            lo, hi = st.len_bounds()
+            if off.is_const and not (lo <= off.const <= hi):
+                pr.issues.append(Issue(
+                    "length-definite",
+                    f"re-encoding writes {off} byte(s) although every PDU accepted on this path has a length in [{lo}, {hi}] "
+                    f"(path conditions: {[repr(f) for f in st.facts if f.kind == 'opaque']}): the parsed object never re-encodes to the received bytes"))
+            elif not st.len_equals(off):
                 pr.issues.append(Issue(
                     "length",
                     f"re-encoding writes {off} byte(s) but the accepted length is not pinned to that "
